@@ -478,7 +478,9 @@ class WorkerLauncher(Generic[_T, _R]):
                 self.__cancel.set()
                 self.__thread.join()
 
-        self.__cancel.clear()
+            # Still under the lock: cleared any later, this could erase the request of
+            # another cancel() which is already waiting for its worker
+            self.__cancel.clear()
 
 
 class NodeDeserializer:
